@@ -14,6 +14,7 @@ def run(ctx):
     ctx.rule("R07.1i", "GDSII -> raw: every imported field derives from its GDSII counterpart")
     rg.run_tables(ctx, "R07.1e", "R07.1i")
     rg.rule_units(ctx, "R07.2")
+    rg.rule_units_decision(ctx, "R07.2d")
     rg.rule_closure(ctx, "R07.3")
     rg.rule_required_options(ctx, "R07.11")
     from rules import convrules as cv
